@@ -2,6 +2,7 @@
 package main
 
 import (
+	"runtime/pprof"
 	"flag"
 	"fmt"
 	"os"
@@ -19,6 +20,12 @@ func main() {
 	root := flag.String("verif", "", "verification root (default: parent of the directory holding this binary)")
 	replay := flag.String("replay", "", "replay file written by an earlier run: re-run the property and show that finding again")
 	flag.Parse()
+	if pf := os.Getenv("MOQLINT_CPUPROFILE"); pf != "" {
+		if f, err := os.Create(pf); err == nil {
+			pprof.StartCPUProfile(f)
+			defer pprof.StopCPUProfile()
+		}
+	}
 	if *tier == "" {
 		*tier = os.Getenv("VERIF_TIER")
 	}
@@ -42,13 +49,13 @@ func main() {
 	defer func() {
 		if r := recover(); r != nil {
 			run.Undecided("checker", "panic", "-", fmt.Sprintf("checker panic: %v", r))
-			os.Exit(run.Finish())
+			exit(run.Finish())
 		}
 	}()
 	prog, err := load.Load(*repo)
 	if err != nil {
 		run.Undecided("load", "repository", *repo, "the repository cannot be loaded and type-checked, nothing can be decided: "+err.Error())
-		os.Exit(run.Finish())
+		exit(run.Finish())
 	}
 	run.Count("packages_loaded", len(prog.All))
 	run.Count("moq_packages", len(prog.Moq))
@@ -57,5 +64,10 @@ func main() {
 	if *replay != "" {
 		run.Replay = *replay
 	}
-	os.Exit(run.Finish())
+	exit(run.Finish())
+}
+
+func exit(code int) {
+	pprof.StopCPUProfile()
+	os.Exit(code)
 }
